@@ -95,10 +95,10 @@ func (c *certstore) BuildNameToCertificate() {
 			continue
 		}
 		if len(x509Cert.Subject.CommonName) > 0 {
-			c.NameToCertificate[x509Cert.Subject.CommonName] = cert
+			c.NameToCertificate[strings.ToLower(x509Cert.Subject.CommonName)] = cert
 		}
 		for _, san := range x509Cert.DNSNames {
-			c.NameToCertificate[san] = cert
+			c.NameToCertificate[strings.ToLower(san)] = cert
 		}
 	}
 }
